@@ -770,7 +770,11 @@ def trap_rule(run, f, rid_msg, rid_install):
                             continue
                         val = _oop(ub, udu, pth, uib[0][0])
                         cap = _vop(ub, pth, local=as_["rhs"]["ops"][0]["p"]["l"])
-                        if val is None or not cap:
+                        if cap and cap[0] == "call" and norm(cap[1] or "").endswith("::stack_ptr_in_bounds") and val is None:
+                            # the answer itself is captured and this body never branches on it
+                            tags[True].add(("bool", True))
+                            tags[False].add(("bool", False))
+                        elif val is None or not cap:
                             und += 1
                         elif cap[0] == "agg":
                             tags[val].add(("variant", cap[2]))
